@@ -6,6 +6,9 @@
     line; signal; end-of-pass errors; the records of the code file
 (C) Spec/AddrSpec.lean (written from the manual) run against the same observations of the real program, and
     the cells of the real code file against the load addresses the spec machine computes.
+Further parts with their own generators, models and driver modes: c10_res.py (reservations of elements smaller than the address
+unit, mode c10r), c10_lab.py (labels at pad bytes and on / before lines that open a macro call, REPT, IRP, IRPN, IRPC, WHILE;
+Motorola-style reservations with several operands inside and outside STRUCT/UNION; mode c10l).
 """
 import json
 import os
@@ -14,6 +17,7 @@ import re
 from .. import common
 from ..common import log
 from . import c10_res
+from . import c10_lab
 
 # target index -> (CPU name, MOMCPU value, segment id -> name, data statement, reservation statement)
 TARGETS = [
@@ -753,6 +757,14 @@ def run(args):
         corr_fail += rp["corr_fail"]
         proof_problems += rp["problems"]
 
+        # labels at pad bytes: on lines that open a construct (macro call, REPT, IRP, IRPN, IRPC, WHILE) / alone before them, on
+        # targets with automatic word alignment; Motorola-style reservations with several operands, inside and outside
+        # STRUCT/UNION: vlib/props/c10_lab.py, driver mode c10l
+        lp = c10_lab.run_part(args, bdir, wd, ok)
+        spec_fail += lp["spec_fail"]
+        corr_fail += lp["corr_fail"]
+        proof_problems += lp["problems"]
+
     res.coverage = common.proof_coverage(audit, "C10", [
         "translate/tables.py gen_segparams (segment parameters of SwitchTo_51/SwitchTo_3202x via clang AST, widths/error numbers via compiled dumper)",
         "correspondence: real asl vs Model/Addr.lean on generated programs (differential test); ORG flavour self-calibrated by a probe",
@@ -760,9 +772,16 @@ def run(args):
         "Spec/AddrSpec.lean: my reading of doc/pseudo-instructions.md",
         "reservation part: Spec/AddrRes.lean = my reading of the section DN,DB,DW,DD,DQ,DT (element count, DUP multiplies, packing into address units); "
         "the unit sizes of the segments handed to the spec are those of the targets' documentation (table RT in c10_res.py), the model takes Grans[] from "
-        "Generated/ListParams.lean; correspondence: real asl vs Model/AddrRes.lean (DecodeIntelDx transcription of Model/DataExt.lean)"])
+        "Generated/ListParams.lean; correspondence: real asl vs Model/AddrRes.lean (DecodeIntelDx transcription of Model/DataExt.lean)",
+        "label part: Spec/AddrLab.lean = my reading of the sections PADDING (the label of the padded line and of the label-only line immediately before it "
+        "point behind the pad byte), MACRO/IRP/IRPN/IRPC/REPT/WHILE (a construct is replaced by its expansion), DC/DS/BYT/FCB/ADR/FDB/DFS/RMB (operands x "
+        "repeat factor x element size; Spec/Data.lean of C09) and Structures; which statements of a target are word-sized objects and the byte order of its "
+        "data words are those of the targets' documentation (tables CT/MT in c10_lab.py); the encodings of the 2-byte machine instructions used as objects "
+        "and the PADDING default of each target are read from the binary under test (calibration); correspondence: real asl vs Model/AddrLab.lean "
+        "(Produce_Code label part with the ResetLastLabel rule, LabelHandle/LabelModify/LabelReset, InsertPadding, Model/Data.lean modelStmt); "
+        "the flag `fixStruct` of the model is set by a probe"])
     res.coverage.update(
-        evaluations=agg["programs"] + rp["evaluations"], distinct_nontrivial=len(distinct) + len(rp["distinct"]),
+        evaluations=agg["programs"] + rp["evaluations"] + lp["evaluations"], distinct_nontrivial=len(distinct) + len(rp["distinct"]) + len(lp["distinct"]),
         rule="random interleavings (6..61 statements) of ORG/RORG/ALIGN[,fill]/DS/DB/SEGMENT/CPU/PHASE/DEPHASE/SAVE/RESTORE/LISTING/STRUCT/UNION/ENDSTRUCT with labels on "
              "8051 (byte granular, 5 segments) and 320C25 (word granular, 3 segments); after every statement $, MOMCPU, LISTON, MOMSEGMENT and the symbols it defines "
              "are read back; 30% of the sources have no CPU statement (target from `asl -cpu`), counter-setting statements (ORG/RORG/ALIGN/PHASE) are followed "
@@ -772,12 +791,21 @@ def run(args):
              "nested `n DUP (...)` groups that start and end anywhere inside an address unit, constant statements as markers, a few refused mixtures - interleaved with "
              "ORG/RORG/SEGMENT/label-only lines on AVR (CODE 16-bit units, DATA/EEDATA bytes), KCPSM (16-bit, big endian), KCPSM3 and Mico8 (32-bit units), Z80, 8051, 8086 "
              "(DN: two nibbles per byte); the counter symbol, MOMSEGMENT and the statement's label are read back after every statement; non-trivial there = at least "
-             "one reservation whose DUP group starts inside an address unit",
-        samples=samples + rp["samples"], distribution=dict(statement_kinds=dist, structure_bodies=sagg,
+             "one reservation whose DUP group starts inside an address unit; plus (label part, c10_lab.py) construct programs - 3..8 groups of [bytes to reach an odd address] "
+             "[label on the line / alone on the line before / two label-only lines / none] [macro call | REPT | IRP | IRPN | IRPC | WHILE with 0..3 iterations, nested to depth 3, first "
+             "body statement word-sized, byte-sized, placing nothing, labelled, or another construct | plain statement] on 68000 (PADDING ON by default), MSP430, TMS9900, AVR with "
+             "8-bit code segment, with PADDING ON/OFF switches, PHASE/DEPHASE blocks and ORG to odd addresses - and reservation programs - 6..21 labelled BYT/FCB/BYTE/DB, "
+             "ADR/FDB/DW, DC.B/W/L statements with 1..5 operands `?` / `[n]?` (n = 0..9), constants as markers, refused mixtures, DS.x / RMB / DFS, label-only lines, ORG, "
+             "STRUCT and UNION bodies made of such reservations, PADDING ON where available, on 6809, 6800, 68HC11, 68HC08, 68HC12, 6502, 65C02, 68000; every symbol, the program "
+             "counter, the error lines and the code file are read back at the end of the program; non-trivial there = a construct program in which a label on / before a "
+             "construct line was moved behind a pad byte, resp. a reservation program judged to its end",
+        samples=samples + rp["samples"] + lp["samples"], distribution=dict(statement_kinds=dist, structure_bodies=sagg,
+                                                         label_part=dict(dict(lp["agg"]), targets_and_stops=dict(lp["dist"]), construct_generator=dict(lp["stats"]),
+                                                                         reservation_generator=dict(lp["mstats"]), calibration=lp.get("calibration")),
                                                          reservation_part=dict(dict(rp["agg"]), targets_and_stops=dict(rp["dist"]), generator=dict(rp["stats"])), **agg), org_flavour_probe=dict(org_is_load_address=org_load, dollar=probe_val, align_zero_error_number=align_zero_err))
     res.assumptions = ["segment sizes/initial values of the spec are the ORG table of the manual (MCS-51, 320C2x); the initial value 30h of the MCS-51 DATA segment is taken from the implementation (the table lists none)",
                        "MESSAGE lines inserted after every statement do not change the counters (they are statements with CodeLen = 0)"]
-    return common.conclude(res, proof_problems, spec_fail, corr_fail, agg["programs"] + rp["evaluations"])
+    return common.conclude(res, proof_problems, spec_fail, corr_fail, agg["programs"] + rp["evaluations"] + lp["evaluations"])
 
 
 def replay(args):
